@@ -1057,3 +1057,25 @@ class FakeTime:
 
     def __getattr__(self, name: str) -> Any:  # anything else is outside the stub
         raise AttributeError(f"FakeTime has no {name}")
+
+
+class _Null:
+    def __enter__(self):
+        return self
+
+    def __exit__(self, *a):
+        return False
+
+
+def untraced():
+    """Context manager: run CONCRETE setup code (class creation, decorators, registries — no symbolic value involved)
+    without CrossHair's opcode interception.  Natively a no-op.  Never wrap code that touches a symbolic value."""
+    if "crosshair" in sys.modules:
+        try:
+            from crosshair.tracers import NoTracing, is_tracing
+
+            if is_tracing():
+                return NoTracing()
+        except Exception:  # noqa: BLE001
+            pass
+    return _Null()
